@@ -4,7 +4,9 @@
 P part (bounded-exhaustive programs).  One plain object main.o (defines _start) and archive members
 m1..mN (member i = function f_mi + data symbol marker_mi + one call per outgoing edge).  Every
 ordered pair (main->mi, mi->mj) carries {n: no reference, s: call, w: call of a `.weak` symbol}.
-  thorough: N=3, all 3^3 x 3^6 = 19,683 graphs, and N=2 (81 graphs)
+  thorough: N=2 (81 graphs); N=3, all 3^3 x 3^6 = 19,683 graphs for the lazy containers, the
+            canonical representatives (below) under --whole-archive, where the expectation is
+            trivially "all members"
   quick:    N=2 all graphs; N=3 only the canonical representative of each class of graphs under
             relabelling of the members (lexicographically smallest edge vector; ~3.4k graphs), with
             the --start-lib container only
@@ -197,7 +199,7 @@ def wild_task(item):
             os.unlink(outp)
         except OSError:
             pass
-        rc, msg = wildrun.server_link([*argv, "-o", outp], cwd=d)
+        rc, msg = symfam.server_link([*argv, "-o", outp], cwd=d)
         got = None
         if rc == 0:
             try:
@@ -205,7 +207,8 @@ def wild_task(item):
             except Exception as ex:
                 rc, msg = "unreadable", str(ex)
         res.append((cid, rc, got, msg[-200:] if rc != 0 else ""))
-    return res
+    kills, symfam.EXTERNAL_KILLS[0] = symfam.EXTERNAL_KILLS[0], 0
+    return res, kills
 
 
 def lld_task(item):
@@ -429,7 +432,7 @@ def replay(chk, path):
                          dup_member_files(member[0])))
             argv = dup_args(member)
             want = dup_model(member)
-        rc, msg = wildrun.server_link([*argv, "-o", outp], cwd=d)
+        rc, msg = symfam.server_link([*argv, "-o", outp], cwd=d)
         got = verdict(rc, markers_of(outp) if rc == 0 else None)
         p = subprocess.run(["ld.lld", *argv, "-o", outp + ".lld"], cwd=d, stdout=subprocess.PIPE,
                            stderr=subprocess.PIPE)
@@ -453,7 +456,7 @@ def main():
     if chk.args.replay:
         replay(chk, chk.args.replay)
     t0 = time.time()
-    cap = 600 if chk.thorough else 40           # wall cap of the P enumeration
+    cap = 900 if chk.thorough else 40           # wall cap of the P enumeration
     cov = {}
     with vlib.scratch("c03") as base:
         err = symfam.selftest_ar(os.path.join(base, "arself"))   # (also proves `ar` works here)
@@ -476,7 +479,14 @@ def main():
             for main, mem in g3_all:
                 for pos in POSITIONS:
                     for kind, whole in CONTAINERS:
-                        fam.append((3, main, mem, pos, kind, whole))
+                        if not whole:
+                            fam.append((3, main, mem, pos, kind, whole))
+            # Under --whole-archive the expectation is "all three": canonical representatives only.
+            for main, mem in g3_canon:
+                for pos in POSITIONS:
+                    for kind, whole in CONTAINERS:
+                        if whole:
+                            fam.append((3, main, mem, pos, kind, whole))
         else:
             for main, mem in g3_canon:
                 for pos in POSITIONS:
@@ -508,11 +518,12 @@ def main():
         # ---- wild on the whole family ----------------------------------------------------------
         if chk.seed:
             random.Random(chk.seed).shuffle(fam)
-        n_eval = n_excl = 0
+        n_eval = n_excl = ext_kills = 0
         loaded_sets, nontrivial, capped = set(), set(), None
         tw = time.time()
         work = batches([(c, link_args(*c)) for c in fam], 128)
-        for res in vlib.pmap_unordered(wild_task, [(d, base, b) for b in work]):
+        for res, kills in vlib.pmap_unordered(wild_task, [(d, base, b) for b in work]):
+            ext_kills += kills
             for c, rc, got, msg in res:
                 n, main, mem, pos, kind, whole = c
                 if (n,) + canonical(n, main, mem) in lld_disagree:
@@ -553,8 +564,10 @@ def main():
             for m, rc, got, _msg in res:
                 dl[m] = verdict(rc, got)
         dw = {}
-        for res in vlib.pmap(wild_task, [(d, base, b) for b in
-                                         batches([(m, dup_args(m)) for m in dfam], 32)], chunksize=1):
+        for res, kills in vlib.pmap(wild_task, [(d, base, b) for b in
+                                                batches([(m, dup_args(m)) for m in dfam], 32)],
+                                    chunksize=1):
+            ext_kills += kills
             for m, rc, got, msg in res:
                 dw[m] = (verdict(rc, got), msg)
         dup_eval = dup_excl = 0
@@ -595,8 +608,11 @@ def main():
                 "when the expected loaded set is a proper non-empty subset of the members or a "
                 "weak edge points at a member that stays out; counted as distinct (N, graph, "
                 "whole) triples; plus distinct expected outcomes of the duplicate-provider family",
-        "family_rule": ("thorough: N=2 (81 graphs) and N=3 (all 19,683 graphs) x 2 positions x "
-                        "{regular, thin} x {lazy, whole} + start-lib lazy"
+        "family_rule": ("thorough: N=2 (81 graphs) x 2 positions x ({regular, thin} x {lazy, whole} "
+                        "+ start-lib lazy); N=3: all 19,683 graphs x 2 positions x {regular, thin, "
+                        "start-lib} lazy, and the %d canonical representatives under member "
+                        "relabelling x 2 positions x {regular, thin} --whole-archive"
+                        % len(g3_canon)
                         if chk.thorough else
                         "quick: N=2 (81 graphs) x 2 positions x {regular, thin} x {lazy, whole} + "
                         "start-lib lazy; N=3 canonical representatives under member relabelling "
@@ -605,6 +621,7 @@ def main():
         "graphs_n3_total": len(g3_all), "graphs_n3_canonical": len(g3_canon),
         "distinct_expected_loaded_sets": len(loaded_sets),
         "archives_built_with_ar": len(ars) + len(dars),
+        "links_repeated_after_external_kill_of_the_server": ext_kills,
         "lld_links": len(lsub) + len(dfam), "lld_second_oracle_graph_members": len(lsub),
         "lld_disagreeing_graphs": len(lld_disagree), "lld_disagreement_samples": lld_samples,
         "dup_members": len(dfam), "dup_evaluated": dup_eval,
